@@ -35,6 +35,21 @@ def PCtx.link (K : PCtx) : Word := K.hi (K.sp + K.S)
 /-- The word `a` is an element of a global array. -/
 def PCtx.inArr (K : PCtx) (a : Nat) : Prop := ∃ id, K.abase id ≤ a ∧ a < K.abase id + K.asize id
 
+/-- The word that stands for an array value: the base address of a global array, or the word address of
+    (the label of) a string literal of the pool with that content. -/
+def ARepOf (env : IAm.Env) (abase : Nat → Nat) (strs : List (String × List Byte)) : ArrRef → Word → Prop
+  | .glob id, w => w = BitVec.ofNat 32 (abase id)
+  | .lit ws, w => ∃ l bs j k, (l, bs) ∈ strs ∧ X.packString bs = .ok ws ∧ env.ds[j]? = some (.label k l) ∧
+      w = BitVec.ofNat 32 (env.addr j / 4)
+
+/-- The word that stands for a value: an integer is itself. -/
+def VRepOf (env : IAm.Env) (abase : Nat → Nat) (strs : List (String × List Byte)) : Val → Word → Prop
+  | .int x, w => w = x
+  | .arr r, w => ARepOf env abase strs r w
+
+abbrev PCtx.ARep (K : PCtx) : ArrRef → Word → Prop := ARepOf K.env K.abase K.strs
+abbrev PCtx.VRep (K : PCtx) : Val → Word → Prop := VRepOf K.env K.abase K.strs
+
 /-- The string literals of the program: each one's label is followed by its packed words, in the
     data area below the stack, apart from every variable. -/
 structure PCtx.StrOK (K : PCtx) : Prop where
@@ -94,7 +109,7 @@ structure Rep (K : PCtx) (σ : X.St) (mem : Mem) : Prop where
   gvis : ∀ n, n ∈ K.gnames → σ.locals.lookup n = none
   depth : σ.depth = K.dep
   aptr : ∀ n r, X.readName K.xc σ n = .ok (.arr r) →
-    ∃ id a, r = .glob id ∧ K.loc n = some a ∧ a < memWords ∧ mem.read a = BitVec.ofNat 32 (K.abase id)
+    ∃ a, K.loc n = some a ∧ a < memWords ∧ K.ARep r (mem.read a)
   acells : ∀ id cells, σ.arrays[id]? = some cells → cells.size = K.asize id ∧
     ∀ idx w, cells[idx]? = some (some w) → mem.read (K.abase id + idx) = w
   strs : ∀ l bs ws j k, (l, bs) ∈ K.strs → X.packString bs = .ok ws → K.env.ds[j]? = some (.label k l) →
@@ -180,8 +195,8 @@ theorem Rep.frame {K : PCtx} (wf : K.WF) {σ : X.St} {mem mem' : Mem} {lo hi : N
   rotate_left 3
   · intro a ha hna; rw [key a (Or.inr (by omega))]; exact h.above a ha hna
   · intro n r hr
-    obtain ⟨id, a, hid, ha, hlt, hv⟩ := h.aptr n r hr
-    exact ⟨id, a, hid, ha, hlt, by rw [key a (wf.loc_sep n a ha)]; exact hv⟩
+    obtain ⟨a, ha, hlt, hv⟩ := h.aptr n r hr
+    exact ⟨a, ha, hlt, by rw [key a (wf.loc_sep n a ha)]; exact hv⟩
   · intro id cells hc
     obtain ⟨hsz, hv⟩ := h.acells id cells hc
     refine ⟨hsz, fun idx w hi => ?_⟩
@@ -438,6 +453,21 @@ def ExecAt (t : Bool) (K : PCtx) (e' : AExpr) (v : Word) (σ : X.St) : Prop :=
     ∃ b' mem', Steps K.env (cfg i a b mem) σ.io (cfg (i + (K.low code).length) v b' mem') σ.io ∧
       Rep K σ mem' ∧ FrmC K gs.offset (hiB t K gs') mem mem'
 
+/-- The same with a predicate on the word left in areg (the address of a string literal depends on the
+    state of the generator). -/
+def ExecP (t : Bool) (K : PCtx) (e' : AExpr) (P : Word → Prop) (σ : X.St) : Prop :=
+  ∀ (gs : GS) (code : Code) (gs' : GS) (i : Nat) (a b : Word) (mem : Mem),
+    genExpr K.ctx e' .A gs = .ok (code, gs') → At K.env.ds i (K.low code) → Rep K σ mem →
+    gs'.size ≤ K.S → K.nlocals ≤ gs.offset → ConstsIn K gs' →
+    ∃ v b' mem', P v ∧ Steps K.env (cfg i a b mem) σ.io (cfg (i + (K.low code).length) v b' mem') σ.io ∧
+      Rep K σ mem' ∧ FrmC K gs.offset (hiB t K gs') mem mem'
+
+theorem ExecAt.toP {t : Bool} {K : PCtx} {e' : AExpr} {v : Word} {σ : X.St} (h : ExecAt t K e' v σ)
+    {P : Word → Prop} (hP : P v) : ExecP t K e' P σ := by
+  intro gs code gs' i a b mem hg hat hr hsz hnl hci
+  obtain ⟨b', mem', st, rep, frm⟩ := h gs code gs' i a b mem hg hat hr hsz hnl hci
+  exact ⟨v, b', mem', hP, st, rep, frm⟩
+
 /-- The triple for call-free code. -/
 abbrev ExecA (K : PCtx) (e' : AExpr) (v : Word) (σ : X.St) : Prop := ExecAt true K e' v σ
 
@@ -574,6 +604,18 @@ theorem ExecAt.weaken {t : Bool} {K : PCtx} {e' : AExpr} {v : Word} {σ : X.St} 
   intro gs code gs' i a b mem hg hat hr hsz hnl hci
   obtain ⟨b', mem', st, rep, frm⟩ := h gs code gs' i a b mem hg hat hr hsz hnl hci
   exact ⟨b', mem', st, rep, frm.mono (Nat.le_refl _) (hiB_ge t K hsz)⟩
+
+theorem ExecP.same {t : Bool} {K : PCtx} {e' : AExpr} {P : Word → Prop} {σ σ' : X.St} (h : ExecP t K e' P σ)
+    (hs : SameVars σ σ') : ExecP t K e' P σ' := by
+  intro gs code gs' i a b mem hg hat hr hsz hnl hci
+  obtain ⟨v, b', mem', hP, st, rep, frm⟩ := h gs code gs' i a b mem hg hat (hr.same hs.symm) hsz hnl hci
+  exact ⟨v, b', mem', hP, by rw [hs.2.2.2.1]; exact st, rep.same hs, frm⟩
+
+theorem ExecP.weaken {t : Bool} {K : PCtx} {e' : AExpr} {P : Word → Prop} {σ : X.St} (h : ExecP true K e' P σ) :
+    ExecP t K e' P σ := by
+  intro gs code gs' i a b mem hg hat hr hsz hnl hci
+  obtain ⟨v, b', mem', hP, st, rep, frm⟩ := h gs code gs' i a b mem hg hat hr hsz hnl hci
+  exact ⟨v, b', mem', hP, st, rep, frm.mono (Nat.le_refl _) (hiB_ge t K hsz)⟩
 
 theorem ExecB.same {K : PCtx} {e' : AExpr} {v : Word} {σ σ' : X.St} (h : ExecB K e' v σ) (hs : SameVars σ σ') :
     ExecB K e' v σ' := by
@@ -868,22 +910,55 @@ theorem arrayOf_ok (xc : X.Ctx) (σ : X.St) (n : String) (ar : ArrRef) (h : X.ar
   · simp at h
   · simp at h
 
-/-- The pointer word of the array a name denotes, and the load of one of its elements. -/
+theorem arrGet_lit (σ : X.St) (ws : List Word) (iv w : Word) (h : X.arrGet σ (.lit ws) iv = .ok w) :
+    0 ≤ iv.toInt ∧ iv.toInt < ws.length ∧ ws[iv.toInt.toNat]? = some w := by
+  unfold X.arrGet at h
+  simp only at h
+  split at h
+  · rename_i hb
+    refine ⟨hb.1, hb.2, ?_⟩
+    split at h
+    · rename_i w' hw
+      simp only [Except.ok.injEq] at h
+      rw [hw, h]
+    · simp at h
+  · simp at h
+
+/-- The pointer word of the array a name denotes (a global array or a string literal), and the load of one
+    of its elements. -/
 theorem rep_elem {K : PCtx} (wf : K.WF) {σ : X.St} {mem : Mem} (hr : Rep K σ mem) (n : String) (ar : ArrRef)
     (iv w : Word) (ha : X.arrayOf K.xc σ n = .ok ar) (hg : X.arrGet σ ar iv = .ok w) :
-    ∃ id ad, K.loc n = some ad ∧ ad < memWords ∧ mem.read ad = BitVec.ofNat 32 (K.abase id) ∧
-      Isa.ld mem (BitVec.ofNat 32 (K.abase id) + iv) = some w := by
-  obtain ⟨id, ad, hid, hloc, hlt, hptr⟩ := hr.aptr n ar (arrayOf_ok _ _ _ _ ha)
-  subst hid
-  obtain ⟨cells, hc, h0, h1, hcell⟩ := arrGet_glob σ id iv w hg
-  obtain ⟨hsz, hv⟩ := hr.acells id cells hc
-  have hidx : iv.toInt.toNat < K.asize id := by omega
-  have hb := (wf.arr_hi id (by omega)).2
-  refine ⟨id, ad, hloc, hlt, hptr, ?_⟩
-  have e1 : BitVec.ofNat 32 (K.abase id) + iv = BitVec.ofNat 32 (K.abase id + iv.toInt.toNat) := by
-    conv => lhs; rw [nonneg_ofNat iv h0]
-    rw [BitVec.ofNat_add]
-  rw [e1, ld_ofNat _ _ (by omega), hv _ _ hcell]
+    ∃ ad, K.loc n = some ad ∧ ad < memWords ∧ Isa.ld mem (mem.read ad + iv) = some w := by
+  obtain ⟨ad, hloc, hlt, hptr⟩ := hr.aptr n ar (arrayOf_ok _ _ _ _ ha)
+  refine ⟨ad, hloc, hlt, ?_⟩
+  cases ar with
+  | glob id =>
+    have hptr' : mem.read ad = BitVec.ofNat 32 (K.abase id) := hptr
+    obtain ⟨cells, hc, h0, h1, hcell⟩ := arrGet_glob σ id iv w hg
+    obtain ⟨hsz, hv⟩ := hr.acells id cells hc
+    have hidx : iv.toInt.toNat < K.asize id := by omega
+    have hb := (wf.arr_hi id (by omega)).2
+    have e1 : BitVec.ofNat 32 (K.abase id) + iv = BitVec.ofNat 32 (K.abase id + iv.toInt.toNat) := by
+      conv => lhs; rw [nonneg_ofNat iv h0]
+      rw [BitVec.ofNat_add]
+    rw [hptr', e1, ld_ofNat _ _ (by omega), hv _ _ hcell]
+  | lit ws =>
+    obtain ⟨l, bs, j, k, hm, hp, hd, hptr'⟩ := hptr
+    obtain ⟨h0, h1, hcell⟩ := arrGet_lit σ ws iv w hg
+    have hidx : iv.toInt.toNat < ws.length := by omega
+    obtain ⟨j', k', hd', _, _, hle⟩ := wf.str.lbl l bs ws hm hp
+    have hj : j = j' := by
+      have e1 := labelIdx_of_nodup _ _ _ _ wf.nodup hd
+      have e2 := labelIdx_of_nodup _ _ _ _ wf.nodup hd'
+      rw [e1] at e2; simpa using e2
+    subst hj
+    have hsp := wf.sp_le
+    have e1 : BitVec.ofNat 32 (K.env.addr j / 4) + iv = BitVec.ofNat 32 (K.env.addr j / 4 + iv.toInt.toNat) := by
+      conv => lhs; rw [nonneg_ofNat iv h0]
+      rw [BitVec.ofNat_add]
+    rw [hptr', e1, ld_ofNat _ _ (by omega), hr.strs l bs ws j k hm hp hd _ hidx]
+    rw [List.getElem?_eq_getElem hidx] at hcell
+    exact hcell
 
 theorem optExpr_un (op : UnOp) (e : AExpr) (c : Option CInt) :
     optExpr (.un op e c) =
@@ -955,14 +1030,16 @@ theorem simple_cases_gen (t : AExpr) (h : needsAReg (optExpr t) = false) :
 
 theorem simple_cases (ρ : String → Option Word) (e : X.Expr) (hp : pureE e = true)
     (h : needsAReg (optExpr (annotate ρ e)) = false) :
-    (∃ n, e = .name n ∧ ρ n = none) ∨ (∃ c, (optExpr (annotate ρ e)).const = some c) := by
+    (∃ n, e = .name n ∧ ρ n = none) ∨ (∃ c, (optExpr (annotate ρ e)).const = some c) ∨ (∃ bs, e = .str bs) := by
   rcases simple_cases_gen _ h with ⟨n, hn⟩ | ⟨bs, hb⟩ | hc
   · left
     cases e <;> simp [annotate, pureE] at hn hp
     rename_i m
     exact ⟨m, rfl, hn.2⟩
-  · cases e <;> simp [annotate, pureE] at hb hp
-  · exact Or.inr hc
+  · right; right
+    cases e <;> simp [annotate, pureE] at hb hp
+    exact ⟨_, rfl⟩
+  · exact Or.inr (Or.inl hc)
 
 /-- A constant-annotated tree as operand in areg. -/
 theorem execA_const (K : PCtx) (wf : K.WF) (e : X.Expr) (c : CInt) (fuel : Nat) (σ σ' : X.St) (v : Word)
@@ -988,7 +1065,11 @@ theorem execB_const (K : PCtx) (wf : K.WF) (e : X.Expr) (c : CInt) (fuel : Nat) 
 theorem execB_simple (K : PCtx) (wf : K.WF) (e : X.Expr) (fuel : Nat) (σ σ' : X.St) (v : Word)
     (hp : pureE e = true) (hev : X.eval fuel K.xc e σ = .ok (.int v) σ')
     (hn : needsAReg (optExpr (annotate K.ρ e)) = false) : ExecB K (optExpr (annotate K.ρ e)) v σ := by
-  rcases simple_cases K.ρ e hp hn with ⟨n, rfl, hρ⟩ | ⟨c, hc⟩
+  rcases simple_cases K.ρ e hp hn with ⟨n, rfl, hρ⟩ | ⟨c, hc⟩ | ⟨bs, rfl⟩
+  rotate_left 2
+  · cases fuel with
+    | zero => unfold X.eval at hev; simp at hev
+    | succ f => obtain ⟨_, _, _, h3⟩ := eval_str _ _ _ _ _ _ hev; simp at h3
   · intro gs code gs' i a b mem io hg hat hr hci
     simp only [annotate, hρ, optExpr] at hg
     obtain ⟨sym, hl, hcode, hgs⟩ := genExpr_name_inv _ _ _ _ _ _ hg
@@ -1104,7 +1185,7 @@ theorem expr_pure_correct (K : PCtx) (wf : K.WF) : ∀ (fuel : Nat) (e : X.Expr)
     cases e with
     | num x => exact hconst x rfl rfl
     | bool b => exact hconst _ rfl rfl
-    | str bs => simp [pureE] at hp
+    | str bs => obtain ⟨_, _, _, h3⟩ := eval_str _ _ _ _ _ _ hev; simp at h3
     | call f args => simp [pureE] at hp
     | syscall id args => simp [pureE] at hp
     | sub n i =>
@@ -1122,7 +1203,7 @@ theorem expr_pure_correct (K : PCtx) (wf : K.WF) : ∀ (fuel : Nat) (e : X.Expr)
       rcases hcase with ⟨c, hc, hcode, hgs⟩ | ⟨hc, ci, hgi, hcode⟩
       · -- constant index: pointer into areg, `LDAI index`
         subst hcode; subst hgs
-        obtain ⟨id, ad, hloc, hlt, hptr, hld⟩ := rep_elem wf (hr.same hs) n ar iv v h3 h4
+        obtain ⟨ad, hloc, hlt, hld⟩ := rep_elem wf (hr.same hs) n ar iv v h3 h4
         have hciv : iv = c := annot_sound K.ρ K.xc fuel i st iv σ' c hp (hr.same hs0).valsOk h2 (opt_const K.ρ i c hc).1
         simp only [low_append] at hat ⊢
         have s1 := exec_genVar K wf .A n sym σ i0 a b mem σ.io ad hl hat.left hr hloc hlt
@@ -1130,7 +1211,7 @@ theorem expr_pure_correct (K : PCtx) (wf : K.WF) : ∀ (fuel : Nat) (e : X.Expr)
         have hl1 : K.low [iLDAI c.toInt] = [.imm 0x6 c.toInt] := rfl
         rw [hl1] at hat ⊢
         have s2 := Step.ldai (env := K.env) (cfg (i0 + (K.low (genVar .A sym)).length) (mem.read ad) b mem) σ.io c.toInt v
-          hat.right.head (by show Isa.ld mem (mem.read ad + IAm.W c.toInt) = some v; rw [hptr, W_toInt, ← hciv]; exact hld)
+          hat.right.head (by show Isa.ld mem (mem.read ad + IAm.W c.toInt) = some v; rw [W_toInt, ← hciv]; exact hld)
         refine ⟨b, mem, ?_, hr, FrmC.refl _ _ _ _⟩
         simp only [List.length_append, List.length_cons, List.length_nil, ← Nat.add_assoc]
         exact s1.trans (Steps.one s2)
@@ -1139,7 +1220,7 @@ theorem expr_pure_correct (K : PCtx) (wf : K.WF) : ∀ (fuel : Nat) (e : X.Expr)
         have hA := (ih i st iv σ' hp h2).same hs0.symm
         simp only [low_append, List.append_assoc] at hat ⊢
         obtain ⟨b1, mem1, st1, rep1, frm1⟩ := hA gs ci gs' i0 a b mem hgi hat.left hr hsz hnl hci
-        obtain ⟨id, ad, hloc, hlt, hptr, hld⟩ := rep_elem wf (rep1.same hs) n ar iv v h3 h4
+        obtain ⟨ad, hloc, hlt, hld⟩ := rep_elem wf (rep1.same hs) n ar iv v h3 h4
         have s2 := exec_genVar K wf .B n sym σ (i0 + (K.low ci).length) iv b1 mem1 σ.io ad hl hat.right.left rep1 hloc hlt
         simp only at s2
         have hl1 : K.low [iADD, iLDAI 0] = [.opr 1, .imm 0x6 0] := rfl
@@ -1152,7 +1233,7 @@ theorem expr_pure_correct (K : PCtx) (wf : K.WF) : ∀ (fuel : Nat) (e : X.Expr)
           σ.io 0 v hldi (by
             show Isa.ld mem1 (iv + mem1.read ad + IAm.W 0) = some v
             have : IAm.W 0 = (0#32 : Word) := by decide
-            rw [this, BitVec.add_zero, hptr, BitVec.add_comm]; exact hld)
+            rw [this, BitVec.add_zero, BitVec.add_comm]; exact hld)
         refine ⟨mem1.read ad, mem1, ?_, rep1, frm1⟩
         simp only [List.length_append, List.length_cons, List.length_nil, ← Nat.add_assoc]
         exact st1.trans (s2.trans (Steps.step _ _ _ _ _ _ s3 (Steps.one s4)))
@@ -1303,31 +1384,24 @@ theorem expr_pure_correct (K : PCtx) (wf : K.WF) : ∀ (fuel : Nat) (e : X.Expr)
               rw [if_pos ha0] at this
               rw [hvv]; exact this
 
-/-! ### Values as words: integers, and the addresses of global arrays -/
+/-! ### Values as words: integers, the addresses of global arrays and of string literals -/
 
-/-- The machine word that stands for a value of the reference semantics. -/
-def wordOf (abase : Nat → Nat) : Val → Word
-  | .int w => w
-  | .arr (.glob id) => BitVec.ofNat 32 (abase id)
-  | .arr (.lit _) => 0
-
-/-- Values that have a word: no string literals. -/
-def okV : Val → Bool
-  | .arr (.lit _) => false
-  | _ => true
-
-/-- An array-valued call-free expression is a name. -/
+/-- An array-valued call-free expression is a name or a string literal. -/
 theorem eval_pure_arr (xc : X.Ctx) (fuel : Nat) (e : X.Expr) (σ σ' : X.St) (r : ArrRef) (hp : pureE e = true)
     (h : X.eval fuel xc e σ = .ok (.arr r) σ') :
-    ∃ n, e = .name n ∧ X.tick xc σ = some σ' ∧ X.readName xc σ' n = .ok (.arr r) := by
+    (∃ n, e = .name n ∧ X.tick xc σ = some σ' ∧ X.readName xc σ' n = .ok (.arr r)) ∨
+    (∃ bs ws, e = .str bs ∧ X.tick xc σ = some σ' ∧ X.packString bs = .ok ws ∧ r = .lit ws) := by
   cases fuel with
   | zero => unfold X.eval at h; simp at h
   | succ f =>
     cases e with
     | num x => have := (eval_num _ _ _ _ _ _ h).1; simp at this
     | bool b => have := (eval_bool _ _ _ _ _ _ h).1; simp at this
-    | name n => exact ⟨n, rfl, eval_name _ _ _ _ _ _ h⟩
-    | str bs => simp [pureE] at hp
+    | name n => exact Or.inl ⟨n, rfl, eval_name _ _ _ _ _ _ h⟩
+    | str bs =>
+      obtain ⟨ws, h1, h2, h3⟩ := eval_str _ _ _ _ _ _ h
+      simp only [Val.arr.injEq] at h3
+      exact Or.inr ⟨bs, ws, rfl, h1, h2, h3⟩
     | call g args => simp [pureE] at hp
     | syscall id args => simp [pureE] at hp
     | sub n i => obtain ⟨_, _, _, _, _, _, _, _, h5⟩ := eval_sub _ _ _ _ _ _ _ h; simp at h5
@@ -1344,41 +1418,42 @@ theorem eval_pure_arr (xc : X.Ctx) (fuel : Nat) (e : X.Expr) (σ σ' : X.St) (r 
         · obtain ⟨_, _, _, _, _, _, h4⟩ := eval_or _ _ _ _ _ _ _ h
           rcases h4 with ⟨_, hv, _⟩ | ⟨_, _, _, _, hv⟩ <;> simp at hv
 
-/-- **Actuals**: the code of a call-free expression leaves the word of its value - an integer, or
-    the address of the array a name denotes - in areg. -/
+/-- **Actuals**: the code of a call-free expression leaves a word for its value - an integer, the
+    address of the array a name denotes, or the address of a string literal - in areg. -/
 theorem expr_pure_val (K : PCtx) (wf : K.WF) (fuel : Nat) (e : X.Expr) (σ : X.St) (v : Val) (σ' : X.St)
     (hp : pureE e = true) (hev : X.eval fuel K.xc e σ = .ok v σ') :
-    ExecAt true K (optExpr (annotate K.ρ e)) (wordOf K.abase v) σ := by
+    ExecP true K (optExpr (annotate K.ρ e)) (K.VRep v) σ := by
   cases v with
-  | int w => exact expr_pure_correct K wf fuel e σ w σ' hp hev
+  | int w => exact (expr_pure_correct K wf fuel e σ w σ' hp hev).toP rfl
   | arr r =>
-    obtain ⟨n, rfl, ht, hrd⟩ := eval_pure_arr K.xc fuel _ σ σ' r hp hev
-    intro gs code gs' i a b mem hg hat hr hsz hnl hci
-    have hs := tick_same _ _ _ ht
-    have hr' := hr.same hs
-    obtain ⟨id, ad, hid, hloc, hlt, hptr⟩ := hr'.aptr n r hrd
-    subst hid
-    have hρ : K.ρ n = none := by
-      cases hρ : K.ρ n with
-      | none => rfl
-      | some c =>
-        have := (hr'.vals n c hρ).read
-        rw [hrd] at this
-        simp at this
-    simp only [annotate, hρ, optExpr] at hg
-    obtain ⟨sym, hl, hcode, hgs⟩ := genExpr_name_inv _ _ _ _ _ _ hg
-    subst hcode; subst hgs
-    have := exec_genVar K wf .A n sym σ i a b mem σ.io ad hl hat hr hloc hlt
-    exact ⟨b, mem, by simpa [hptr, wordOf] using this, hr, FrmC.refl _ _ _ _⟩
-
-theorem eval_pure_okV (K : PCtx) (fuel : Nat) (e : X.Expr) (σ : X.St) (v : Val) (σ' : X.St) (mem : Mem)
-    (hp : pureE e = true) (hr : Rep K σ mem) (hev : X.eval fuel K.xc e σ = .ok v σ') : okV v = true := by
-  cases v with
-  | int w => rfl
-  | arr r =>
-    obtain ⟨n, rfl, ht, hrd⟩ := eval_pure_arr K.xc fuel _ σ σ' r hp hev
-    obtain ⟨id, _, hid, _⟩ := (hr.same (tick_same _ _ _ ht)).aptr n r hrd
-    subst hid
-    rfl
+    rcases eval_pure_arr K.xc fuel _ σ σ' r hp hev with ⟨n, rfl, ht, hrd⟩ | ⟨bs, ws, rfl, ht, hpk, rfl⟩
+    · intro gs code gs' i a b mem hg hat hr hsz hnl hci
+      have hs := tick_same _ _ _ ht
+      have hr' := hr.same hs
+      obtain ⟨ad, hloc, hlt, hptr⟩ := hr'.aptr n r hrd
+      have hρ : K.ρ n = none := by
+        cases hρ : K.ρ n with
+        | none => rfl
+        | some c =>
+          have := (hr'.vals n c hρ).read
+          rw [hrd] at this
+          simp at this
+      simp only [annotate, hρ, optExpr] at hg
+      obtain ⟨sym, hl, hcode, hgs⟩ := genExpr_name_inv _ _ _ _ _ _ hg
+      subst hcode; subst hgs
+      have := exec_genVar K wf .A n sym σ i a b mem σ.io ad hl hat hr hloc hlt
+      exact ⟨mem.read ad, b, mem, hptr, this, hr, FrmC.refl _ _ _ _⟩
+    · intro gs code gs' i a b mem hg hat hr hsz hnl hci
+      simp only [annotate, optExpr] at hg
+      rw [genExpr_str] at hg
+      obtain ⟨_, hmem, hcode⟩ := genString_items _ _ _ _ _ hg
+      subst hcode
+      have hm : ("_string" ++ toString gs.stringCount, bs) ∈ K.strs := hci.str ((str_mem_items _ _ _).mp hmem)
+      obtain ⟨j, k, hd, h4, _, _⟩ := wf.str.lbl _ bs ws hm hpk
+      have hl : K.low (strCode .A ("_string" ++ toString gs.stringCount))
+          = [.ref 0x3 ("_string" ++ toString gs.stringCount) false] := rfl
+      rw [hl] at hat ⊢
+      have s := Step.ldacL (env := K.env) (cfg i a b mem) σ.io _ j hat.head (labelIdx_of_nodup _ _ _ _ wf.nodup hd) h4
+      exact ⟨_, b, mem, ⟨_, bs, j, k, hm, hpk, hd, rfl⟩, Steps.one s, hr, FrmC.refl _ _ _ _⟩
 
 end Hex.C01s
